@@ -84,6 +84,21 @@ def filter (p : Nat → Bool) (s : Stack) (dgrow : Nat → Nat) (dexGe : Nat →
     if l.1 != .ok then (l.1, none, l.2.2.1, l.2.1.destroy l.2.2.2)
     else (.ok, some l.2.1, l.2.2.1, l.2.2.2)
 
+open Spec.Seq (SOp Out) in
+/-- one call of the push/pop/peek/size API -/
+def step (s : Stack) (op : SOp) (m : Mem) : Out × Stack × Mem :=
+  match op with
+  | .push x => let r := s.push x m; ({ st := some r.1 }, r.2.1, r.2.2)
+  | .pop => let r := s.pop m; ({ st := some r.1, val := r.2.1 }, r.2.2.1, r.2.2.2)
+  | .peek => let r := s.peek m; ({ st := some r.1, val := r.2.1 }, s, r.2.2)
+  | .size => ({ val := some s.size }, s, m)
+
+open Spec.Seq (SOp Out) in
+def run (s : Stack) (ops : List SOp) (m : Mem) : List Out × Stack × Mem :=
+  match ops with
+  | [] => ([], s, m)
+  | op :: ops => let r := s.step op m; let rs := run r.2.1 ops r.2.2; (r.1 :: rs.1, rs.2.1, rs.2.2)
+
 /-- `cc_stack_iter_next` -/
 def iterNext (s : Stack) (it : ArrIter) (m : Mem) : Stat × Option Nat × ArrIter × Mem := s.v.iterNext it m
 
